@@ -51,6 +51,7 @@ type Interp struct {
 	prog     *ssa.Program
 	st       *term.Store
 	solver   *smt.Solver
+	solver2  *smt.Solver
 	globals  map[*ssa.Global]*Value
 	fninfo   map[*ssa.Function]*fnInfo
 	consts   map[*ssa.Const]Value
@@ -93,6 +94,9 @@ func NewInterp(cfg *Config) (*Interp, error) {
 func (in *Interp) Close() {
 	if in.solver != nil {
 		in.solver.Close()
+	}
+	if in.solver2 != nil {
+		in.solver2.Close()
 	}
 }
 
@@ -466,7 +470,7 @@ func (in *Interp) visitInstr(fr *frame, instr ssa.Instruction) continuation {
 		} else {
 			it := in.idxTerm(idx.(*term.T), ii)
 			in.boundsFork(it, len(backing))
-			if onlyLoaded(instr) && scalarCells(backing) {
+			if onlyLoaded(instr) {
 				w, sg := elemInfo(instr.Type())
 				fr.set(instr, &SymElemPtr{Arr: backing, Idx: it, w: w, signed: sg})
 			} else {
@@ -489,13 +493,8 @@ func (in *Interp) visitInstr(fr *frame, instr ssa.Instruction) continuation {
 			} else {
 				it := in.idxTerm(idx.(*term.T), ii)
 				in.boundsFork(it, len(x))
-				if scalarCells(x) {
-					w, sg := elemInfo(types.NewPointer(instr.Type()))
-					fr.set(instr, in.loadSymElem(&SymElemPtr{Arr: x, Idx: it, w: w, signed: sg}))
-				} else {
-					i := in.concretize(it, 0, int64(len(x)))
-					fr.set(instr, x[i])
-				}
+				w, sg := elemInfo(types.NewPointer(instr.Type()))
+				fr.set(instr, in.loadSymElem(&SymElemPtr{Arr: x, Idx: it, w: w, signed: sg}))
 			}
 		case string, *SymStr:
 			n := strLen(x)
